@@ -3,6 +3,7 @@ package main
 // lockset.go (analysis A4): must-hold lockset per instruction.
 
 import (
+	"fmt"
 	"go/token"
 	"go/types"
 	"sort"
@@ -223,3 +224,204 @@ func stateString(s lockState) string {
 // holdsLockOn: state contains a lock whose root is `root` (any path) or
 // exactly key.
 func holdsKey(s lockState, k LockKey) bool { return s[k] }
+
+// lockOracle answers "is the mutex guarding base held at this instruction",
+// using (1) the function's own must-hold lockset, (2) a caller summary when
+// the guarded object is a parameter (every caller holds the lock on the
+// argument), and (3) fork-join inheritance (forkJoinHolds).
+type lockOracle struct {
+	res   *Resolver
+	cache map[*ssa.Function]map[ssa.Instruction]lockState
+}
+
+func newLockOracle(res *Resolver) *lockOracle {
+	return &lockOracle{res: res, cache: map[*ssa.Function]map[ssa.Instruction]lockState{}}
+}
+
+func (o *lockOracle) locks(fn *ssa.Function) map[ssa.Instruction]lockState {
+	if v, ok := o.cache[fn]; ok {
+		return v
+	}
+	v := Locksets(fn, nil)
+	o.cache[fn] = v
+	return v
+}
+
+func joinPath(a, b string) string {
+	switch {
+	case a == "":
+		return b
+	case b == "":
+		return a
+	}
+	return a + "." + b
+}
+
+// HeldAt: mutex is the name of the guarding mutex field of the struct base
+// points to ("" = base itself is / embeds the mutex).
+func (o *lockOracle) HeldAt(fn *ssa.Function, in ssa.Instruction, base ssa.Value, mutex string) (bool, string) {
+	k := accessPath(base)
+	k.Path = joinPath(k.Path, mutex)
+	return o.heldKey(fn, in, k, 0)
+}
+
+func (o *lockOracle) heldKey(fn *ssa.Function, in ssa.Instruction, k LockKey, depth int) (bool, string) {
+	st := o.locks(fn)[in]
+	if st[k] {
+		return true, "holds " + k.String()
+	}
+	if ok, why := o.forkJoinHolds(fn, in, k); ok {
+		return true, why
+	}
+	// caller summary: base rooted at a parameter
+	if p, ok := k.Root.(*ssa.Parameter); ok && p.Parent() == fn && depth < 3 {
+		callers := o.res.CallersOf(fn)
+		if len(callers) == 0 {
+			return false, "lockset " + stateString(st) + ", no callers to summarise"
+		}
+		for _, cs := range callers {
+			args := cs.Common().Args
+			idx := paramIndex(p)
+			if cs.Common().IsInvoke() {
+				idx--
+			}
+			if idx < 0 || idx >= len(args) {
+				return false, "caller arity"
+			}
+			// the caller must hold the same relative path on its argument
+			ck := accessPath(args[idx])
+			ckey := LockKey{ck.Root, joinPath(ck.Path, k.Path)}
+			if _, isGo := cs.(*ssa.Go); isGo {
+				return false, fmt.Sprintf("lockset %s; started as a goroutine by %s", stateString(st), fnName(cs.Parent()))
+			}
+			if ok, _ := o.heldKey(cs.Parent(), cs, ckey, depth+1); !ok {
+				return false, fmt.Sprintf("lockset %s; caller %s does not hold the lock either (%s)", stateString(st), fnName(cs.Parent()), stateString(o.locks(cs.Parent())[cs]))
+			}
+		}
+		return true, "every caller holds the lock (summary)"
+	}
+	return false, "lockset here " + stateString(st)
+}
+
+// forkJoinHolds: fn is a function literal whose only use is a `go`
+// statement of its enclosing function, executed while the enclosing function
+// holds key; the enclosing function then waits for the goroutine
+// (WaitGroup.Wait on every path from the go statement to every exit, lock
+// still held at the Wait, Add before the go statement), and inside fn the
+// instruction `at` cannot run after the Done that lets the parent continue.
+// Then the goroutine's accesses are ordered between the parent's Lock and
+// Unlock exactly as if it held the lock (fork-join inside the critical
+// section).
+func (o *lockOracle) forkJoinHolds(fn *ssa.Function, at ssa.Instruction, k LockKey) (bool, string) {
+	parent := fn.Parent()
+	if parent == nil {
+		return false, ""
+	}
+	// the key must be rooted in the enclosing function (captured variable)
+	switch r := k.Root.(type) {
+	case *ssa.Parameter:
+		if r.Parent() != parent {
+			return false, ""
+		}
+	case *ssa.Alloc:
+		if r.Parent() != parent {
+			return false, ""
+		}
+	default:
+		return false, ""
+	}
+	var mc *ssa.MakeClosure
+	allInstrs(parent, func(in ssa.Instruction) {
+		if m, ok := in.(*ssa.MakeClosure); ok && m.Fn == ssa.Value(fn) {
+			mc = m
+		}
+	})
+	if mc == nil {
+		return false, ""
+	}
+	var spawn *ssa.Go
+	for _, ref := range *mc.Referrers() {
+		switch x := ref.(type) {
+		case *ssa.DebugRef:
+		case *ssa.Go:
+			if x.Call.Value != ssa.Value(mc) || spawn != nil {
+				return false, ""
+			}
+			spawn = x
+		default:
+			return false, ""
+		}
+	}
+	if spawn == nil {
+		return false, ""
+	}
+	if !o.locks(parent)[spawn][k] {
+		return false, ""
+	}
+	wgRoot := func(c ssa.CallInstruction, name string) ssa.Value {
+		f := staticCallee(c)
+		if f == nil || f.Name() != name || f.Signature.Recv() == nil || !namedIs(f.Signature.Recv().Type(), "sync", "WaitGroup") {
+			return nil
+		}
+		rk := accessPath(c.Common().Args[0])
+		if rk.Path != "" {
+			return nil
+		}
+		if fv, ok := rk.Root.(*ssa.FreeVar); ok {
+			return (&apWalker{}).freeVarBinding(fv)
+		}
+		return rk.Root
+	}
+	// Done calls of the goroutine identify the wait group
+	var wg ssa.Value
+	okDone := true
+	nDone := 0
+	for _, c := range callsIn(fn) {
+		r := wgRoot(c, "Done")
+		if r == nil {
+			continue
+		}
+		nDone++
+		if wg != nil && wg != r {
+			okDone = false
+		}
+		wg = r
+		if _, isDefer := c.(*ssa.Defer); isDefer {
+			continue
+		}
+		if c == at {
+			continue
+		}
+		if hit, _ := reach(siteOf(c), isInstr(at), nil); hit {
+			okDone = false // the access may run after the parent was released
+		}
+	}
+	if wg == nil || !okDone || nDone == 0 {
+		return false, ""
+	}
+	// parent: Add dominates the go statement; Wait on every path to every exit, lock held there
+	addOK := false
+	cuts := newCuts()
+	waitsHold := true
+	for _, c := range callsIn(parent) {
+		if r := wgRoot(c, "Add"); r == wg && dominatesInstr(c, spawn) {
+			addOK = true
+		}
+		if r := wgRoot(c, "Wait"); r == wg {
+			if _, isCall := c.(*ssa.Call); !isCall {
+				continue
+			}
+			cuts.addInstr(c)
+			if !o.locks(parent)[c][k] {
+				waitsHold = false
+			}
+		}
+	}
+	if !addOK || !waitsHold || len(cuts.Instrs) == 0 {
+		return false, ""
+	}
+	if hit, _ := reach(siteOf(spawn), isExit, cuts); hit {
+		return false, ""
+	}
+	return true, fmt.Sprintf("goroutine forked and joined (WaitGroup) by %s inside its critical section on %s", fnName(parent), k.String())
+}
